@@ -79,7 +79,7 @@ check("C11",
            "node of get_qualified(union, T), qualifiers()==union, main_variant()==T and is not a Qualified, the empty set is "
            "refused at every stage and changes nothing; after each chain all 7 sets are requested directly over the same T, twice "
            "(own node each, found again); plus all 7! orders of the seven direct requests over one type and 84 keys (7 sets x 12 types) in one table under six "
-           "insertion orders. distinct_nontrivial = "
+           "insertion orders x four heap-address personalities, a refused request before every request; chains run under a personality chosen by the history. distinct_nontrivial = "
            "distinct (base, union, length) triples.",
       text="The complete space of qualification chains up to the bound is executed on the real type factory and "
            "compared with the normal form the interface documents.",
